@@ -43,3 +43,22 @@ def stop_edge_advances(ctx, prefix=""):
                "control word %#05x" % a, "micro-address after the edge: %s; successors by the next-address logic: %s"
                % ([hex(x) for x in got] if isinstance(got, list) else got, [hex(x) for x in want]),
                "A4 of the clock edge with the loaded byte pinned to 0x01")
+
+
+def continue_resumes(ctx, prefix=""):
+    """the continue key sets a regularly stopped machine back to Running wherever the micro-sequencer stands (the edge
+    that loads STOP moves it on to a word that is not a fetch word: a resume that waited for a boundary would never happen)"""
+    from . import absint, step
+    from .domain import En
+    p = ctx.p
+    names = [v["n"] for v in p.need_type(step.STATE)["variants"]]
+    for ty, fn in ((step.RM, "trigger_key_continue"), (step.MACHINE, "trigger_key_continue")):
+        I = absint.Interp(p)
+        ov = step.machine_overrides(p, None, "Stopped", None, stacksize_notset=True)
+        st, ma, _r = step.run_method(p, I, "%s::%s" % (ty, fn), ov, ty=ty)
+        after = step.field(p, I, st, ma, ("" if ty == step.RM else "raw.") + "state", ty=ty)
+        got = sorted(names[vi] for vi in after.vs) if isinstance(after, En) else repr(after)
+        ctx.chk.ob(prefix + "continue-resumes/%s" % ty.rsplit("::", 1)[-1], got == ["Running"],
+                   "the continue key resumes a regularly stopped machine in every micro state", p.need_body("%s::%s" % (ty, fn)).loc(),
+                   "state after the key on a stopped machine with everything else unknown: %s" % (got,),
+                   "A4 of trigger_key_continue on a machine whose every other field is unknown")
